@@ -6,6 +6,8 @@ set -u
 export GOFLAGS=-mod=mod GOPROXY=off GOSUMDB=off GOTOOLCHAIN=local CGO_ENABLED=0
 export VERIF_DIR="${VERIF_DIR:-$(cd "$(dirname "$0")" && pwd)}"
 export VERIF_REPO="${VERIF_REPO:-/repo}"
+# a replay file may be named relative to the caller's directory
+if [ "${1:-}" = "replay" ] && [ -n "${2:-}" ] && [ "${2#/}" = "$2" ]; then set -- replay "$PWD/$2" "${@:3}"; fi
 cd "$VERIF_DIR/harness" || exit 2
 cp -f "$VERIF_REPO/go.sum" go.sum 2>/dev/null
 mkdir -p "$VERIF_DIR/bin"
